@@ -178,8 +178,18 @@ func checkHarfbuzzResult(c *sc.Case, face *font.Face, res *sc.HBResult) (summary
 	backward := res.Direction == harfbuzz.RightToLeft || res.Direction == harfbuzz.BottomToTop
 	monotone := true
 	distinct := map[int]bool{}
+	// the clauses speak about the cluster values the caller gave: the rune indices with AddRunes,
+	// arbitrary non-decreasing values with AddRune
+	input := c.InputClusters()
+	given := make(map[int]bool, len(input))
+	for _, v := range input {
+		given[v] = true
+	}
 	for i, g := range res.Info {
-		if g.Cluster < c.RunStart || g.Cluster >= c.RunEnd {
+		if !given[g.Cluster] {
+			if c.Fill == sc.FillAddRune {
+				return s, fmt.Errorf("glyph %d: cluster %d is none of the cluster values given to AddRune (%d..%d)", i, g.Cluster, input[0], input[len(input)-1])
+			}
 			return s, fmt.Errorf("glyph %d: cluster %d outside the run [%d,%d)", i, g.Cluster, c.RunStart, c.RunEnd)
 		}
 		distinct[g.Cluster] = true
@@ -224,11 +234,11 @@ func checkHarfbuzzResult(c *sc.Case, face *font.Face, res *sc.HBResult) (summary
 		if backward {
 			first = res.Info[len(res.Info)-1].Cluster
 		}
-		if first != c.RunStart {
-			return s, fmt.Errorf("cluster level 0: lowest cluster is %d, the run starts at %d (per-cluster rune counts would sum to %d, not %d)", first, c.RunStart, c.RunEnd-first, n)
+		if first != input[0] {
+			return s, fmt.Errorf("cluster level 0: lowest cluster is %d, the first input item has cluster %d: input items before it are not accounted for by any output cluster", first, input[0])
 		}
 	}
-	s.merged = len(res.Info) > 0 && len(distinct) < n
+	s.merged = len(res.Info) > 0 && len(distinct) < len(given)
 	return s, nil
 }
 
@@ -442,6 +452,21 @@ func upstreamNonMonotoneSignature(c *sc.Case, clusters []int, backward bool) boo
 	if !ok {
 		return false
 	}
+	if h.Fill == sc.FillAddRune {
+		// the reference numbers the items of the run 0, 1, 2…; translate to the caller's values
+		// (a non-decreasing map: taking the minimum of a cluster commutes with it)
+		off := 0
+		if h.CtxPre {
+			off = h.RunStart // the reference was given the pre-context: its item starts there
+		}
+		for i, v := range ref {
+			v -= off
+			if v < 0 || v >= len(h.Clusters) {
+				return false
+			}
+			ref[i] = h.Clusters[v]
+		}
+	}
 	a, b := nonMonotoneSteps(clusters, backward), nonMonotoneSteps(ref, backward)
 	if len(a) == 0 || len(a) != len(b) {
 		return false
@@ -624,7 +649,32 @@ func classify(c *sc.Case, s summary) {
 	if len(c.Features) > 0 {
 		labels = append(labels, "features:some")
 	}
+	if c.HasInstance() {
+		if len(c.Vars) > 0 || len(c.Coords) > 0 {
+			labels = append(labels, "instance:variations")
+		}
+		if c.XPpem != 0 || c.YPpem != 0 {
+			labels = append(labels, "instance:ppem")
+		}
+	}
 	if c.API == sc.APIHarfbuzz {
+		switch c.Fill {
+		case sc.FillAddRune:
+			labels = append(labels, "fill:AddRune")
+			if c.CtxPre || c.CtxPost {
+				labels = append(labels, "fill:AddRune+context")
+			}
+			if len(c.Clusters) > 0 && c.Clusters[0] != 0 {
+				labels = append(labels, "fill:AddRune-first-cluster-not-0")
+			}
+		case sc.FillSplit:
+			labels = append(labels, "fill:AddRunes-split")
+		default:
+			labels = append(labels, "fill:AddRunes")
+		}
+		if c.YScale != 0 {
+			labels = append(labels, "scale:x!=y")
+		}
 		labels = append(labels, "clusterlevel:"+strconv.Itoa(int(c.ClusterLevel)))
 		if c.Flags&uint16(harfbuzz.RemoveDefaultIgnorables) != 0 {
 			labels = append(labels, "flag:remove-ignorables")
